@@ -2,6 +2,7 @@
 //   driver <mode> key   <props.json> <source> [<props.json> <source> ...]   cache key of each configuration (no build)
 //   driver <mode> keyfile <props.json> <source> ...                          as key, but the source hash is occa::hashFile(<source>), as device::buildKernel computes it
 //   driver <mode> build <props.json> <source> [<props.json> <source> ...]   key, then build + run each configuration in order
+//   driver <mode> buildfile <props.json> <source> ...                        as build, through device::buildKernel(<source file>)
 // With OCCA_VERIF_HASHLOG set, the hook in src/utils/hash.cpp appends the hash trace; a line "M <n>" is appended by this
 // driver before configuration n so that the trace can be split.
 #include <occa.hpp>
@@ -25,9 +26,14 @@ static void printKey(const char *tag, int n, const occa::hash_t &h) {
 }
 
 int main(int argc, char **argv) {
+  if (argc >= 4 && !strcmp(argv[2], "hashfile")) {      // driver <mode> hashfile <file>...: occa::hashFile as the library prints it
+    for (int a = 3; a < argc; ++a) printf("HASHFILE %s %s\n", argv[a], occa::hashFile(argv[a]).getFullString().c_str());
+    return 0;
+  }
   if (argc < 5) { fprintf(stderr, "usage: driver <mode> key|build (<props.json> <source>)+\n"); return 2; }
   const bool build = !strcmp(argv[2], "build");
-  const bool fromFile = !strcmp(argv[2], "keyfile");
+  const bool buildFile = !strcmp(argv[2], "buildfile");      // device::buildKernel(<source file>): the file path API (used by C07)
+  const bool fromFile = !strcmp(argv[2], "keyfile") || buildFile;
   occa::device dev(std::string("{mode: '") + argv[1] + "'}");
   printf("MODE %s\n", dev.mode().c_str());     // occa falls back to Serial when the requested mode is not compiled in
   for (int a = 3, n = 0; a + 1 < argc; a += 2, ++n) {
@@ -39,8 +45,8 @@ int main(int argc, char **argv) {
       dev.setupKernelInfo(props, fromFile ? occa::hashFile(argv[a + 1]) : occa::hash(src), kernelProps, key);
       mark(-1);
       printKey("KEY", n, key);
-      if (!build) continue;
-      occa::kernel k = dev.buildKernelFromString(src, "k", props);
+      if (!build && !buildFile) continue;
+      occa::kernel k = buildFile ? dev.buildKernel(argv[a + 1], "k", props) : dev.buildKernelFromString(src, "k", props);
       printKey("BUILT", n, k.hash());
       int out[4] = {0, 0, 0, 0};
       occa::memory m = dev.malloc<int>(4);
